@@ -110,13 +110,13 @@ func observe(g *graph.Graph) gobs {
 	for a, row := range out {
 		o.ORows = append(o.ORows, keyOf(a))
 		for b, w := range row {
-			o.OEdges = append(o.OEdges, []interface{}{keyOf(a), keyOf(b), w})
+			o.OEdges = append(o.OEdges, []interface{}{keyOf(a), keyOf(b), w + 1}) // the trace writes weight k as k+1 (0 = no edge)
 		}
 	}
 	for a, row := range in {
 		o.IRows = append(o.IRows, keyOf(a))
 		for b, w := range row {
-			o.IEdges = append(o.IEdges, []interface{}{keyOf(a), keyOf(b), w})
+			o.IEdges = append(o.IEdges, []interface{}{keyOf(a), keyOf(b), w + 1})
 		}
 	}
 	for _, v := range g.Vertices() {
@@ -183,10 +183,11 @@ func (h *ghist) apply(op gop, maxHandles int) (ok bool) {
 		g.AddOverwrite(&gv{op.K, op.Ver})
 	case "adde":
 		// (an endpoint that is not in the graph: documented to do nothing)
-		if op.W == 1 {
+		// the history's weight label W stands for the real weight W-1 (so that 0 is a weight like any other)
+		if op.W == 2 {
 			g.AddEdge(&gv{K: op.A}, &gv{K: op.B})
 		} else {
-			g.AddEdgeWeighted(&gv{K: op.A}, &gv{K: op.B}, op.W)
+			g.AddEdgeWeighted(&gv{K: op.A}, &gv{K: op.B}, op.W-1)
 		}
 	case "reme":
 		g.RemoveEdge(&gv{K: op.A}, &gv{K: op.B})
